@@ -640,6 +640,17 @@ static void iauth_xquery_config_service(const char *name, const char *type)
     srv->configured = 1;
 }
 
+static void iauth_xquery_services_changed(struct conf_node_base *node);
+
+/** Handles an in-place edit of one service entry (for example a
+ * changed protocol) by rescanning the whole section, the same way
+ * log.c treats edits inside the "logs" section.
+ */
+static void iauth_xquery_service_changed(UNUSED_ARG(struct conf_node_base *node))
+{
+    iauth_xquery_services_changed(&conf.root->base);
+}
+
 static void iauth_xquery_services_changed(struct conf_node_base *node)
 {
     struct iauth_xquery_service *srv;
@@ -660,7 +671,13 @@ static void iauth_xquery_services_changed(struct conf_node_base *node)
 
             if (base->type == CONF_STRING) {
                 struct conf_node_string *str = set_node_data(jj);
-                iauth_xquery_config_service(str->base.name, str->value);
+
+                /* Hear about later changes to this entry's value. */
+                if (!base->hook)
+                    base->hook = iauth_xquery_service_changed;
+                /* An entry that is being removed has no value any more. */
+                if (str->value)
+                    iauth_xquery_config_service(str->base.name, str->value);
             } /* else unknown type */
         }
 
